@@ -21,6 +21,7 @@ TRANSLATORS = [
     ('gen_frontends', ['Frontends.v']),
     ('gen_state', ['StateInv.v']),
     ('gen_split_regex', ['SplitRx.v']),
+    ('gen_options', ['OptTab.v']),
 ]
 
 
